@@ -784,6 +784,13 @@ func hasNothingNew(p *Prog, conds []*Term, fi *FuncInfo) bool {
 											hasPush = true
 										}
 									}
+								} else if ok {
+									// an unexported helper that pushes into snd_buf on every path through it
+									if f := p.Callee(call); f != nil && !f.Exported() {
+										if h := p.FuncOf(f); h != nil && h.Body != nil && alwaysPushesSndBuf(p, h) {
+											hasPush = true
+										}
+									}
 								}
 								return true
 							})
@@ -879,4 +886,35 @@ func checkFlushIntervalOnlyLowered(p *Prog, r *Report, rule string) {
 	if n == 0 {
 		r.bad(rule, flush.Name, p.Pos(flush.Node), "interval returned by flush", "the returned interval is never assigned", "")
 	}
+}
+
+// alwaysPushesSndBuf: every path through h passes a snd_buf.Push.
+func alwaysPushesSndBuf(p *Prog, h *FuncInfo) bool {
+	c := p.CFG(h)
+	push := p.Method("RingBuffer", "Push")
+	isPush := func(nd ast.Node, _ Point) bool {
+		hit := false
+		inspectShallow(nd, func(x ast.Node) bool {
+			if call, ok := x.(*ast.CallExpr); ok && p.Callee(call) == push {
+				if s := p.siteOf(call, h); s.Recv != nil {
+					if _, ok := fieldBase(s.Recv, p.Field("KCP", "snd_buf")); ok {
+						hit = true
+					}
+				}
+			}
+			return true
+		})
+		return hit
+	}
+	any := false
+	for _, pt := range c.AllPoints() {
+		if isPush(pt.Node(), pt) {
+			any = true
+		}
+	}
+	if !any {
+		return false
+	}
+	res := c.FindPath(PathQuery{From: Point{c.Entry(), 0}, ExitIsTarget: true, IsBarrier: isPush})
+	return !res.Found
 }
